@@ -2277,166 +2277,194 @@ func c05R5(c *Ctx) {
 		{"content/memory", "Store.Exists"}, {"content/memory", "Store.Fetch"},
 		{"content/file", "Store.Exists"}, {"content/file", "Store.Fetch"},
 	} {
-		fn := c.P.Fn(x.pkg, x.name)
-		if fn == nil || len(fn.Blocks) == 0 {
+		fn0 := c.P.Fn(x.pkg, x.name)
+		if fn0 == nil || len(fn0.Blocks) == 0 {
 			c.LostAnchor(R, x.pkg+"."+x.name)
 			continue
 		}
-		tn := FnName(fn)
-		target := c07DescParam(fn)
-		if target == nil {
-			c.LostAnchor(R, tn+": descriptor parameter")
+		if c07DescParam(fn0) == nil {
+			c.LostAnchor(R, FnName(fn0)+": descriptor parameter")
 			continue
 		}
-		isExists := fn.Signature.Results().Len() == 2 && types.Identical(fn.Signature.Results().At(0).Type(), types.Typ[types.Bool])
-		isTarget := func(v ssa.Value) bool { return c05DescSource(v) == target }
-		digestOfTarget := func(v ssa.Value) bool { return c05FieldOfParam(v, "Digest") == target }
-		// answers forwarded from an inner store / published map for the same descriptor
-		forward := map[ssa.Value]bool{}
-		var evidence [][][]Edge // alternatives; within one alternative every group must be passed by a self-made positive answer
-		for _, call := range Calls(fn, func(string) bool { return true }) {
-			if _, isDefer := call.(*ssa.Defer); isDefer {
+		// the entry point and the same-package helpers it hands the descriptor to (depth <= 3)
+		type job struct {
+			fn    *ssa.Function
+			depth int
+		}
+		work := []job{{fn0, 0}}
+		done := map[*ssa.Function]bool{}
+		for len(work) > 0 {
+			j := work[0]
+			work = work[1:]
+			if done[j.fn] {
 				continue
 			}
-			n := CalleeName(call)
-			args := call.Common().Args
-			switch {
-			case strings.HasSuffix(n, ").Exists") || strings.HasSuffix(n, ").Fetch") || strings.HasSuffix(n, ").FetchCached"):
-				same := false
-				for _, a := range args {
-					if c05IsOCIDescriptor(a.Type()) && isTarget(a) {
-						same = true
-					}
+			done[j.fn] = true
+			fn := j.fn
+			tn := FnName(fn)
+			target := c07DescParam(fn)
+			isExists := fn.Signature.Results().Len() == 2 && types.Identical(fn.Signature.Results().At(0).Type(), types.Typ[types.Bool])
+			isTarget := func(v ssa.Value) bool { return c05DescSource(v) == target }
+			digestOfTarget := func(v ssa.Value) bool { return c05FieldOfParam(v, "Digest") == target }
+			// answers forwarded from an inner store / published map for the same descriptor
+			forward := map[ssa.Value]bool{}
+			var evidence [][][]Edge // alternatives; within one alternative every group must be passed by a self-made positive answer
+			for _, call := range Calls(fn, func(string) bool { return true }) {
+				if _, isDefer := call.(*ssa.Defer); isDefer {
+					continue
 				}
-				if same {
-					if r0 := ResultOf(call, 0); r0 != nil {
-						forward[r0] = true
-						// `if ok, err := inner.Exists(...); err == nil && ok { return true, nil }`
-						if te, _ := BoolTests(fn, Aliases(r0)); len(te) > 0 {
-							evidence = append(evidence, [][]Edge{te, c05NilEdgesOf(call)})
+				n := CalleeName(call)
+				args := call.Common().Args
+				helperFwd := false
+				if h := c05Helper(call, fn); h != nil && j.depth < 3 && c07DescParam(h) != nil && ResultOf(call, 0) != nil &&
+					types.Identical(h.Signature.Results().At(0).Type(), fn.Signature.Results().At(0).Type()) {
+					for _, a := range args {
+						if c05IsOCIDescriptor(a.Type()) && isTarget(a) {
+							helperFwd = true
 						}
 					}
-				}
-			case n == "(*sync.Map).Load":
-				okKey := c07IsKeyOf(args[1], func(v ssa.Value) bool { return c05ParamOf(v) == target }) || digestOfTarget(args[1])
-				published := c05IsFieldAddrOf(args[0], "~/internal/cas.Memory", "content") || c05IsFieldAddrOf(args[0], "~/content/file.Store", "digestToPath")
-				if okKey && published {
-					if okv := ResultOf(call, 1); okv != nil {
-						forward[okv] = true
-						te, _ := BoolTests(fn, Aliases(okv))
-						evidence = append(evidence, [][]Edge{te})
+					if helperFwd {
+						work = append(work, job{h, j.depth + 1}) // the helper answers for the same descriptor: it is held to the same rule
 					}
 				}
-			case n == "io/fs.Stat" || n == "(io/fs.FS).Open":
-				// a file at the blob path of the target's digest
-				p := args[len(args)-1]
-				okPath := false
-				for _, bc := range Calls(fn, func(string) bool { return true }) {
-					if g := StaticCallee(bc); g != nil && bp[g] && digestOfTarget(bc.Common().Args[0]) {
-						if r0 := ResultOf(bc, 0); r0 != nil && SameValue(p, r0) {
-							okPath = true
+				switch {
+				case helperFwd || strings.HasSuffix(n, ").Exists") || strings.HasSuffix(n, ").Fetch") || strings.HasSuffix(n, ").FetchCached"):
+					same := false
+					for _, a := range args {
+						if c05IsOCIDescriptor(a.Type()) && isTarget(a) {
+							same = true
 						}
 					}
-				}
-				if okPath {
-					evidence = append(evidence, [][]Edge{c05NilEdgesOf(call)})
-					if r0 := ResultOf(call, 0); r0 != nil && n != "io/fs.Stat" {
-						forward[r0] = true
+					if same {
+						if r0 := ResultOf(call, 0); r0 != nil {
+							forward[r0] = true
+							// `if ok, err := inner.Exists(...); err == nil && ok { return true, nil }`
+							if te, _ := BoolTests(fn, Aliases(r0)); len(te) > 0 {
+								evidence = append(evidence, [][]Edge{te, c05NilEdgesOf(call)})
+							}
+						}
 					}
-				}
-			case n == "os.Open":
-				// the file recorded for the target's digest
-				for _, r := range Roots(args[0]) {
-					if ta, isTA := r.(*ssa.TypeAssert); isTA {
-						r = ta.X
+				case n == "(*sync.Map).Load":
+					okKey := c07IsKeyOf(args[1], func(v ssa.Value) bool { return c05ParamOf(v) == target }) || digestOfTarget(args[1])
+					published := c05IsFieldAddrOf(args[0], "~/internal/cas.Memory", "content") || c05IsFieldAddrOf(args[0], "~/content/file.Store", "digestToPath")
+					if okKey && published {
+						if okv := ResultOf(call, 1); okv != nil {
+							forward[okv] = true
+							te, _ := BoolTests(fn, Aliases(okv))
+							evidence = append(evidence, [][]Edge{te})
+						}
 					}
-					if e, isE := r.(*ssa.Extract); isE && e.Index == 0 {
-						if lc, isC := e.Tuple.(*ssa.Call); isC && CalleeName(lc) == "(*sync.Map).Load" && c05IsFieldAddrOf(lc.Call.Args[0], "~/content/file.Store", "digestToPath") && digestOfTarget(lc.Call.Args[1]) {
-							if r0 := ResultOf(call, 0); r0 != nil {
-								forward[r0] = true
+				case n == "io/fs.Stat" || n == "(io/fs.FS).Open":
+					// a file at the blob path of the target's digest
+					p := args[len(args)-1]
+					okPath := false
+					for _, bc := range Calls(fn, func(string) bool { return true }) {
+						if g := StaticCallee(bc); g != nil && bp[g] && digestOfTarget(bc.Common().Args[0]) {
+							if r0 := ResultOf(bc, 0); r0 != nil && SameValue(p, r0) {
+								okPath = true
+							}
+						}
+					}
+					if okPath {
+						evidence = append(evidence, [][]Edge{c05NilEdgesOf(call)})
+						if r0 := ResultOf(call, 0); r0 != nil && n != "io/fs.Stat" {
+							forward[r0] = true
+						}
+					}
+				case n == "os.Open":
+					// the file recorded for the target's digest
+					for _, r := range Roots(args[0]) {
+						if ta, isTA := r.(*ssa.TypeAssert); isTA {
+							r = ta.X
+						}
+						if e, isE := r.(*ssa.Extract); isE && e.Index == 0 {
+							if lc, isC := e.Tuple.(*ssa.Call); isC && CalleeName(lc) == "(*sync.Map).Load" && c05IsFieldAddrOf(lc.Call.Args[0], "~/content/file.Store", "digestToPath") && digestOfTarget(lc.Call.Args[1]) {
+								if r0 := ResultOf(call, 0); r0 != nil {
+									forward[r0] = true
+								}
 							}
 						}
 					}
 				}
 			}
-		}
-		// cas.Memory.Fetch builds a reader over the loaded bytes: any value is fine behind the ok edge
-		// name gate of the file store
-		var gate []Edge
-		hasGate := false
-		for _, call := range Calls(fn, func(string) bool { return true }) {
-			if g := StaticCallee(call); g != nil && fnPkgPath(g) == pkgPath("content/file") && len(c05FieldUses([]*ssa.Function{g}, "~/content/file.nameStatus", "exists")) > 0 && call.Value() != nil {
-				hasGate = true
-				te, _ := BoolTests(fn, Aliases(call.Value()))
-				gate = append(gate, te...)
-				nameArg := call.Common().Args[len(call.Common().Args)-1]
-				eq, _ := c05EqEdges(fn, func(v ssa.Value) bool { return SameValue(v, nameArg) }, func(v ssa.Value) bool { s, ok := constString(v); return ok && s == "" })
-				gate = append(gate, eq...)
+			// cas.Memory.Fetch builds a reader over the loaded bytes: any value is fine behind the ok edge
+			// name gate of the file store
+			var gate []Edge
+			hasGate := false
+			for _, call := range Calls(fn, func(string) bool { return true }) {
+				if g := StaticCallee(call); g != nil && fnPkgPath(g) == pkgPath("content/file") && len(c05FieldUses([]*ssa.Function{g}, "~/content/file.nameStatus", "exists")) > 0 && call.Value() != nil {
+					hasGate = true
+					te, _ := BoolTests(fn, Aliases(call.Value()))
+					gate = append(gate, te...)
+					nameArg := call.Common().Args[len(call.Common().Args)-1]
+					eq, _ := c05EqEdges(fn, func(v ssa.Value) bool { return SameValue(v, nameArg) }, func(v ssa.Value) bool { s, ok := constString(v); return ok && s == "" })
+					gate = append(gate, eq...)
+				}
 			}
-		}
-		if x.pkg == "content/file" && !hasGate {
-			c.Violation(R, tn+"|positive-answer-has-evidence", fn.Pos(), "the file store no longer consults the name status: content of a name whose push failed or never happened is reported as present")
-			continue
-		}
-		ok, detail := true, "every positive answer is evidence from the published state for this descriptor or the forwarded answer of an inner store"
-		errIdx := ErrResultIndex(fn.Signature)
-		for _, r := range Returns(fn) {
-			if !ReachableFromEntry(r) {
+			if x.pkg == "content/file" && !hasGate {
+				c.Violation(R, tn+"|positive-answer-has-evidence", fn.Pos(), "the file store no longer consults the name status: content of a name whose push failed or never happened is reported as present")
 				continue
 			}
-			// refusals need no evidence
-			refusal := errIdx >= 0
-			if errIdx >= 0 {
-				for _, ev := range Roots(r.Results[errIdx]) {
-					if ErrNilStatus(ev, 0) != NonNil {
-						refusal = false
-					}
-				}
-			}
-			if refusal {
-				continue
-			}
-			positive := false
-			for _, v := range Roots(r.Results[0]) {
-				v = strip(v)
-				if k, isK := v.(*ssa.Const); isK {
-					if isExists && k.Value != nil && k.Value.String() == "false" {
-						continue
-					}
-					if !isExists && k.Value == nil {
-						continue
-					}
-				}
-				positive = true
-				if forward[v] {
+			ok, detail := true, "every positive answer is evidence from the published state for this descriptor or the forwarded answer of an inner store"
+			errIdx := ErrResultIndex(fn.Signature)
+			for _, r := range Returns(fn) {
+				if !ReachableFromEntry(r) {
 					continue
 				}
-				// self-made positive answer: needs every evidence group on the path
-				if len(evidence) == 0 {
-					ok, detail = false, "the return at "+c.P.Pos(r.Pos())+" answers positively ("+describe(v)+") without any evidence from the published state"
-					continue
-				}
-				justified := false
-				for _, alt := range evidence {
-					all := true
-					for _, grp := range alt {
-						if !MustPass(r, newCut().Edges(grp...)) {
-							all = false
+				// refusals need no evidence
+				refusal := errIdx >= 0
+				if errIdx >= 0 {
+					for _, ev := range Roots(r.Results[errIdx]) {
+						if ErrNilStatus(ev, 0) != NonNil {
+							refusal = false
 						}
 					}
-					if all {
-						justified = true
+				}
+				if refusal {
+					continue
+				}
+				positive := false
+				for _, v := range Roots(r.Results[0]) {
+					v = strip(v)
+					if k, isK := v.(*ssa.Const); isK {
+						if isExists && k.Value != nil && k.Value.String() == "false" {
+							continue
+						}
+						if !isExists && k.Value == nil {
+							continue
+						}
+					}
+					positive = true
+					if forward[v] {
+						continue
+					}
+					// self-made positive answer: needs every evidence group on the path
+					if len(evidence) == 0 {
+						ok, detail = false, "the return at "+c.P.Pos(r.Pos())+" answers positively ("+describe(v)+") without any evidence from the published state"
+						continue
+					}
+					justified := false
+					for _, alt := range evidence {
+						all := true
+						for _, grp := range alt {
+							if !MustPass(r, newCut().Edges(grp...)) {
+								all = false
+							}
+						}
+						if all {
+							justified = true
+						}
+					}
+					if !justified {
+						ok, detail = false, "the return at "+c.P.Pos(r.Pos())+" answers positively ("+describe(v)+") on a path that did not find the content in the published state"
 					}
 				}
-				if !justified {
-					ok, detail = false, "the return at "+c.P.Pos(r.Pos())+" answers positively ("+describe(v)+") on a path that did not find the content in the published state"
+				if positive && hasGate && !MustPass(r, newCut().Edges(gate...)) {
+					ok, detail = false, "the return at "+c.P.Pos(r.Pos())+" answers positively for a named descriptor without the name being marked as existing (a failed push leaves a file on disk that must stay invisible)"
 				}
 			}
-			if positive && hasGate && !MustPass(r, newCut().Edges(gate...)) {
-				ok, detail = false, "the return at "+c.P.Pos(r.Pos())+" answers positively for a named descriptor without the name being marked as existing (a failed push leaves a file on disk that must stay invisible)"
-			}
+			c.Check(R, tn+"|positive-answer-has-evidence", fn.Pos(), ok, detail)
 		}
-		c.Check(R, tn+"|positive-answer-has-evidence", fn.Pos(), ok, detail)
 	}
 }
 
